@@ -4,7 +4,8 @@
     <tag> <ctx> <graph> <chk> <obj>
     ctx   := k (name rep)*k           graph := k (num gen obj)*k
     chk   := n name | rep             rep   := r pred ind typ
-    pred  := - | pt | pf | pr | pc k obj*k          ind := q | a | f
+    pred  := - | pt | pf | pr | pc k obj*k | pn | pm keyhex | pd | pg id pred (C10: name tree, number tree, date, tagged; Lean side only)
+    ind   := q | a | f
     typ   := any | p prim | arr size|- chk | het k chk*k | dict k (keyhex opt chk)*k (- | * opt chk)
            | strm k (keyhex opt chk)*k | dis k chk*k
     obj   := A k obj*k | D k (keyhex obj)*k | S k (keyhex obj)*k start hex | R num gen | B 0|1
@@ -88,14 +89,22 @@ partial def pKVs : Nat → Toks → Option (List (Bytes × Obj) × Toks)
   | _, _ => none
 end
 
-def pPred : Toks → Option (Option Pred × Toks)
+partial def pPred : Toks → Option (Option Pred × Toks)
   | "-" :: t => some (none, t)
+  | "pg" :: i :: t => do
+    let (p, t) ← pPred t
+    match p with
+    | some p => pure (some (.tagged i.toNat! p), t)
+    | none => none
   | "pt" :: t => some (some .always, t)
   | "pf" :: t => some (some .never, t)
   | "pr" :: t => some (some .refArray, t)
   | "pc" :: k :: t => do
     let (xs, t) ← pObjs k.toNat! t
     pure (some (.choice xs), t)
+  | "pn" :: t => some (some .nameTree, t)
+  | "pm" :: k :: t => do pure (some (.numTree (← bytesOfHex k)), t)
+  | "pd" :: t => some (some .date, t)
   | _ => none
 
 def pInd : String → Option Ind
@@ -225,12 +234,16 @@ partial def sKVs : List (Bytes × Obj) → String
   | (k, v) :: t => s!" {hexOfBytes k} " ++ sObj v ++ sKVs t
 end
 
-def sPred : Option Pred → String
+partial def sPred : Option Pred → String
   | none => "-"
+  | some (.tagged i p) => s!"pg {i} " ++ sPred (some p)
   | some .always => "pt"
   | some .never => "pf"
   | some .refArray => "pr"
   | some (.choice vs) => s!"pc {vs.length}" ++ String.join (vs.map fun v => " " ++ sObj v)
+  | some .nameTree => "pn"
+  | some (.numTree k) => s!"pm {hexOfBytes k}"
+  | some .date => "pd"
 
 def sInd : Ind → String
   | .required => "q" | .allowed => "a" | .forbidden => "f"
